@@ -222,22 +222,22 @@ def horner (A : AOps R) (c : Nat → R) (x : R) : Nat → R
 
 /-- The unit functions of an input layer: `(k, f)` with `f i a` the value of unit `i` at value `a`
     of the layer's variable (ignored by constant layers). Tables are evaluated once. -/
-def leafFun (A : AOps R) (θ : Nat → Option (Array R)) :
+def leafFun (A : AOps R) (θ : Nat → Option (Array R)) (pre : R → R := id) :
     LKind R → Except String (Nat × (Nat → R → R))
   | .embedding _ k _ w => do
-      let W ← w.eval A θ
+      let W ← w.eval A θ pre
       .ok (k, fun i a => match A.toNat a with
         | some c => W.get2 i c A.zero
         | none => A.zero)
   | .categorical _ k _ probs logits => do
       match probs, logits with
       | some p, none =>
-          let P ← p.eval A θ
+          let P ← p.eval A θ pre
           .ok (k, fun i a => match A.toNat a with
             | some c => P.get2 i c A.zero
             | none => A.zero)
       | none, some l =>
-          let L ← l.eval A θ
+          let L ← l.eval A θ pre
           match L.data.mapM A.exp with
           | some e =>
               let E : Tensor R := { L with data := e }
@@ -248,9 +248,9 @@ def leafFun (A : AOps R) (θ : Nat → Option (Array R)) :
       | _, _ => .error "categorical: exactly one of probs/logits"
   | .binomial _ k total probs logits => do
       let P ← match probs, logits with
-        | some p, none => p.eval A θ
+        | some p, none => p.eval A θ pre
         | none, some l => do
-            let L ← l.eval A θ
+            let L ← l.eval A θ pre
             match L.data.mapM (fun x => do A.inv (A.add A.one (← A.exp (A.neg x)))) with
             | some s => pure { L with data := s }
             | none => throw "unsupported sigmoid (binomial logits)"
@@ -263,10 +263,10 @@ def leafFun (A : AOps R) (θ : Nat → Option (Array R)) :
             else A.zero
         | none => A.zero)
   | .gaussian _ k mean stddev lp => do
-      let M ← mean.eval A θ
-      let S ← stddev.eval A θ
+      let M ← mean.eval A θ pre
+      let S ← stddev.eval A θ pre
       let LP ← match lp with
-        | some e => do let t ← e.eval A θ; pure (some t)
+        | some e => do let t ← e.eval A θ pre; pure (some t)
         | none => pure none
       if (A.exp A.zero).isNone then throw "unsupported exp (gaussian)"
       .ok (k, fun i x =>
@@ -287,47 +287,47 @@ def leafFun (A : AOps R) (θ : Nat → Option (Array R)) :
           A.exp lg
         r.getD A.zero)
   | .polynomial _ k degree coeff => do
-      let C ← coeff.eval A θ
+      let C ← coeff.eval A θ pre
       .ok (k, fun i x => horner A (fun n => C.get2 i n A.zero) x (degree + 1))
   | .constantValue k logSpace value => do
-      let Vt ← value.eval A θ
+      let Vt ← value.eval A θ pre
       if logSpace then
         match Vt.data.mapM A.exp with
         | some e => .ok (k, fun i _ => e.getD i A.zero)
         | none => .error "unsupported exp (log-space constant)"
       else .ok (k, fun i _ => Vt.get1 i A.zero)
   | .evidence inner obs => do
-      let (k, f) ← leafFun A θ inner
-      let O ← obs.eval A θ
+      let (k, f) ← leafFun A θ pre inner
+      let O ← obs.eval A θ pre
       let a := O.get1 0 A.zero
       .ok (k, fun i _ => f i a)
   | _ => .error "not an input layer"
 
 /-- Denote every layer of the DAG as a `Node` tree (children looked up among the already built
     layers, so sharing is unfolded). -/
-def SCirc.denoteLayers (A : AOps R) (θ : Nat → Option (Array R)) (c : SCirc R) :
+def SCirc.denoteLayers (A : AOps R) (θ : Nat → Option (Array R)) (c : SCirc R) (pre : R → R := id) :
     Except String (Array (Node R R)) :=
   c.layers.foldlM (init := #[]) fun acc l => do
     let dflt : Node R R := .const 0 (fun _ => A.zero)
     let child (ar : Nat) : Fin ar → Node R R := fun h => acc.getD (l.ins.getD h.val 0) dflt
     match l.kind with
     | .sum kin kout ar w => do
-        let W ← w.eval A θ
+        let W ← w.eval A θ pre
         if W.shape != [kout, ar * kin] then throw s!"sum weight shape {W.shape}"
         pure (acc.push (.sum ar kin kout (fun i cidx => W.get2 i cidx A.zero) (child ar)))
     | .hadamard k ar => pure (acc.push (.had ar k (child ar)))
     | .kronecker k ar => pure (acc.push (.kron ar k (child ar)))
     | kind => do
-        let (k, f) ← leafFun A θ kind
+        let (k, f) ← leafFun A θ pre kind
         match kind.inputScope with
         | [v] => pure (acc.push (.leaf v k f))
         | _ => pure (acc.push (.const k (fun i => f i A.zero)))
 
 /-- The ordered output trees. -/
-def SCirc.denote (A : AOps R) (θ : Nat → Option (Array R)) (c : SCirc R) :
+def SCirc.denote (A : AOps R) (θ : Nat → Option (Array R)) (c : SCirc R) (pre : R → R := id) :
     Except String (List (Node R R)) := do
   if !c.wf then throw "ill-formed circuit"
-  let ls ← c.denoteLayers A θ
+  let ls ← c.denoteLayers A θ pre
   pure (c.outputs.map fun i => ls.getD i (.const 0 (fun _ => A.zero)))
 
 /-- domain size of every discrete variable of the circuit (from its input layers) -/
